@@ -312,11 +312,13 @@ func (p *printer) writeString(pos token.Position, s string, isLit bool) {
 		// tabwriter.Escape bytes since they do not appear in legal
 		// UTF-8 sequences.
 		p.output = append(p.output, tabwriter.Escape)
-		switch p.lastTok {
-		case token.CSTRING:
-			p.output = append(p.output, 'c')
-		case token.PYSTRING:
-			p.output = append(p.output, 'p', 'y')
+		if len(s) > 0 && s[0] == '"' { // the literal itself, not a comment flushed before it
+			switch p.lastTok {
+			case token.CSTRING:
+				p.output = append(p.output, 'c')
+			case token.PYSTRING:
+				p.output = append(p.output, 'p', 'y')
+			}
 		}
 	}
 
